@@ -362,6 +362,30 @@ CtfDeck makeCtfDeck(vh::Rng& r, bool wild, int& maskCounter) {
     return d;
 }
 
+// Fixed first deck (every seed): the witnesses recorded in DESIGN.md section 3 -- METRIC, 100 x 50 x 10 cell:
+// CF 5 / Kh 2000 / skin 2 with r0 defaulted (finding F4: back-computed r0 must use the same 2 pi),
+// CF 5 with Kh = 0, DIAMETER 60 with zero skin (rw > r0: clamp, CF = inf), and a fully defaulted record.
+CtfDeck fixedCtfDeck() {
+    CtfDeck d;
+    Scenario& s = d.s;
+    s.u = UNITS[0]; s.nx = s.ny = s.nz = 2;
+    s.dxv = { 100, 100 }; s.dyv = { 50, 50 }; s.dzv = { 10, 10 }; s.tops = 2000; s.hasNtg = false;
+    for (int g = 0; g < 8; ++g) { s.permx.push_back(100); s.permy.push_back(100); s.permz.push_back(10); s.ntg.push_back(1); s.poro.push_back(0.3); s.actnum.push_back(1); }
+    auto mk = [&](int w, int mask) { CtfCase c; c.i = c.j = c.k = 0; c.mask = mask; c.rec.well = "W" + std::to_string(w); c.rec.I = c.rec.J = c.rec.K1 = c.rec.K2 = 1; c.rec.dir = 'Z'; return c; };
+    CtfCase a = mk(0, 3);  a.rec.cf = "5"; a.rec.kh = "2000"; a.rec.skin = "2"; a.rec.cfPos = a.rec.khPos = true;
+    CtfCase b = mk(1, 1);  b.rec.cf = "5"; b.rec.kh = "0"; b.rec.skin = "2"; b.rec.cfPos = true; b.rec.khZero = true;
+    CtfCase c = mk(2, 4);  c.rec.diam = "60"; c.rec.diamGiven = true; c.rec.boundary = true; c.rec.consistent = false;
+    CtfCase e = mk(3, 0);
+    d.cases = { a, b, c, e };
+    std::string sch = "WELSPECS\n";
+    for (int w = 0; w < 4; ++w) sch += " 'W" + std::to_string(w) + "' 'G' 1 1 1* 'OIL' /\n";
+    sch += "/\nCOMPDAT\n";
+    for (const auto& cc : d.cases) sch += cc.rec.text();
+    sch += "/\nTSTEP\n 1 /\nEND\n";
+    d.text = gridSection(s) + sch;
+    return d;
+}
+
 // ---------------------------------------------------------------------------------------
 // histories: one observed well W1 (+ a bystander W2), COMPDAT / WPIMULT / WELOPEN over steps
 
@@ -610,7 +634,7 @@ int main(int argc, char** argv) {
         const int ndecks = thorough ? 8000 : 600;
         for (int n = 0; n < ndecks; ++n) {
             const bool wild = n % 3 == 2;
-            CtfDeck d = makeCtfDeck(rng, wild, maskCounter);
+            CtfDeck d = (n == 0) ? fixedCtfDeck() : makeCtfDeck(rng, wild, maskCounter);
             std::unique_ptr<Loaded> l;
             try { l = load(d.text); }
             catch (const std::exception& e) { std::cerr << "generated deck rejected: " << e.what() << "\n" << d.text; return 3; }
@@ -727,7 +751,7 @@ int main(int argc, char** argv) {
         // (P1) identity, (P2) defaults are the text-book values, (P3) idempotence
         const int ndecks = thorough ? 6000 : 500;
         for (int n = 0; n < ndecks; ++n) {
-            CtfDeck d = makeCtfDeck(rng, false, maskCounter);
+            CtfDeck d = (n == 0) ? fixedCtfDeck() : makeCtfDeck(rng, false, maskCounter);
             std::unique_ptr<Loaded> l;
             try { l = load(d.text); }
             catch (const std::exception& e) { std::cerr << "generated deck rejected: " << e.what() << "\n" << d.text; return 3; }
@@ -750,10 +774,11 @@ int main(int argc, char** argv) {
                 const auto cd = cellData(*l->es, cc.i, cc.j, cc.k);
                 const long double CF = c->CF(), Kh = c->Kh(), r0 = c->r0(), rw = c->rw(), S = c->skinFactor();
                 ++stats["identity.mask." + std::to_string(cc.mask)];
-                if (!(std::isfinite((double) CF) && std::isfinite((double) Kh) && std::isfinite((double) r0)) || !(rw > 0)) {
-                    log.fail("identity.nonfinite", where); continue;
-                }
-                if (r0 > rw && cc.rec.consistent) {
+                const bool finite = std::isfinite((double) CF) && std::isfinite((double) Kh) && std::isfinite((double) r0) && rw > 0;
+                if (!finite && cc.rec.consistent) { log.fail("identity.nonfinite", where); continue; }
+                if (!finite) ++stats["identity.nonfinite_expected"];
+                if (!finite) { /* rw >= r0 with zero skin: CF = inf by the clamp; only the defaults below are checked */ }
+                else if (r0 > rw && cc.rec.consistent) {
                     const long double lhs = CF * (logl(r0 / rw) + S), rhs = TWO_PI * Kh;
                     if (!relClose(lhs, rhs, 1e-12L))
                         log.fail("identity", "unit=" + std::string(d.s.u.name) + " branch=" + cc.rec.branch() + " rel=" + num((double) ((lhs - rhs) / rhs)) + " rec=" + where);
@@ -766,7 +791,7 @@ int main(int argc, char** argv) {
                     ++stats["identity.boundary_r0_le_rw"];
                 }
                 // CSKIN (Connection::setSkinFactor) keeps the relation
-                if (r0 > rw && cc.rec.consistent && rng.coin(1, 3)) {
+                if (finite && r0 > rw && cc.rec.consistent && rng.coin(1, 3)) {
                     Connection c2 = *c;
                     const long double pd = logl(r0 / rw) + S;
                     const double s2 = (double) S + (pd > 0 ? uni(rng, -0.5 * (double) std::min(pd, 4.0L), 6.0) : uni(rng, 0.0, 6.0));
@@ -792,7 +817,7 @@ int main(int argc, char** argv) {
                 if (dirName(c->dir())[0] != cc.rec.dir) log.fail("dir.stored", where);
                 if (std::string(stateName(c->state())) != cc.rec.state) log.fail("state.stored", where);
                 // feed back
-                if (CF > 0 && Kh > 0 && r0 > 0 && cc.rec.consistent) {
+                if (finite && CF > 0 && Kh > 0 && r0 > 0 && cc.rec.consistent) {
                     Rec r2 = cc.rec;
                     const int what = (int) rng.below(4);     // 0: all three, 1: CF only, 2: Kh only, 3: r0 only
                     // re-entering computed values reproduces them unless the clamp min(rw, r0) was active
